@@ -225,6 +225,15 @@ def _(env, I, T):
     return _upload(env, I, T, 'synirr', 'upl_v9.mp4', UP_V2, 'video/mp4')
 
 
+@action('replace upl_v9 of synirr by different content and index it', True)
+def _(env, I, T):
+    r = _upload(env, I, T, 'synirr', 'upl_v9.mp4', UP_V2, 'video/mp4')
+    I2 = env.lookup()
+    if 'upl_v9' in I2['files']:
+        _req(env, 'GET', f'/media/index/{_mf(I2, "upl_v9")[0]}?ajax=1&csrf_token={env.tokens()["files"]}')
+    return r
+
+
 @action('upload a file named like a file of another stream (synenc_v1) to synirr', True)
 def _(env, I, T):
     return _upload(env, I, T, 'synirr', 'synenc_v1.mp4', UP_V, 'video/mp4')
@@ -642,6 +651,12 @@ def _stream_readback(env, R, s, spk, acc):
         elif r.status in (200, 206) and r.body not in KNOWN_UPLOADS[mf['name']]:
             out.append(('readback-differs', f'{u}: the {len(r.body)} bytes served differ from every upload made under '
                         f'that name'))
+        elif r.status in (200, 206):
+            # ... and they are the bytes of the upload that is there now (the blob file), not of one it replaced
+            p = env.w.blob_folder / s['directory'] / R['Blob'][mf['blob']]['filename']
+            if p.exists() and p.read_bytes() != r.body:
+                out.append(('readback-stale', f'{u}: the bytes served are those of an earlier upload under that name, the '
+                            f'blob file holds the later one'))
         elif mf['rep'] is not None and r.status not in (200, 206):
             out.append(('readback-refused', f'{u}: an uploaded and indexed file is answered {r.status}'))
     return out
